@@ -202,7 +202,16 @@ func TransformModuleFilesToModel( //nolint:funlen,gocognit,cyclop
 
 			for name, relation := range typeDef.GetRelations() {
 				if slices.Contains(existingRelationNames, name) {
-					lineIndex := utils.GetRelationLineNumber(name, lines)
+					// look the relation up inside the block of this extension: the same relation name
+					// may also be defined by an earlier block of the file, for another type
+					lineIndex := -1
+
+					if blockStart := utils.GetExtendedTypeLineNumber(typeDef.GetType(), lines); blockStart != -1 {
+						if offset := utils.GetRelationLineNumber(name, lines[blockStart+1:]); offset != -1 {
+							lineIndex = blockStart + 1 + offset
+						}
+					}
+
 					line, col := utils.ConstructLineAndColumnData(lines, lineIndex, name)
 					transformErrors = multierror.Append(transformErrors, &ModuleTransformationSingleError{
 						Msg:    fmt.Sprintf("relation %s already exists on type %s", name, typeDef.GetType()),
